@@ -376,6 +376,8 @@ func (mr *memRepo) blobCreate(locked bool, opts ...BlobOpt) (BlobCreator, string
 			ok = false
 		}
 		if ok {
+			// the blob was pushed again, restart the GC grace period
+			b.m.mod = time.Now()
 			return nil, "", types.ErrBlobExists
 		}
 	}
